@@ -12,6 +12,9 @@
        Send(t)      semaphore taken + pending set + packet handed to the transport (no await between)
        HostRecv     Host.on_packet for the packet at the head of the controller->host FIFO
        Return(t)    the caller resumes: pending cleared, semaphore released (if credit), result returned
+       SendFail(t)  handing the command over fails (a parameter value that does not fit its field: the packet
+                    cannot be serialised; the transport sink raises): the call ends with an exception, the
+                    command never crosses to the controller, and the command slot is free afterwards
    The two transports are FIFOs: order-preserving delay is exactly FIFO non-determinism.
 
    Controller side: NOT a model of bumble/controller.py but of what the property demands of any
@@ -33,9 +36,12 @@ CONSTANTS Tasks,        \* caller task ids (positive integers)
           WeakOps,      \* subset of ProcOps: procedures that may legitimately stay pending (until cancelled)
           CancelOp,     \* opcode of the cancel command (0: none)
           CancelTarget, \* the ProcOp whose procedure CancelOp cancels
+          AliasOp,      \* a second command that starts the SAME procedure as AliasTarget (0: none), as LE Extended
+          AliasTarget,  \*   Create Connection and LE Create Connection do: one connection creation per controller
+          FailOps,      \* subset of Ops: commands whose hand-over to the transport may fail (exception to the caller)
           MaxCalls,     \* calls per task (bounds the model)
           CreditGames,  \* TRUE: the controller may answer with Num_HCI_Command_Packets = 0 and grant the credit later
-          HostBug,      \* "none" | "early_release"   (negative controls, used by the self-test only)
+          HostBug,      \* "none" | "early_release" | "keep_slot"   (negative controls, used by the self-test only)
           CtrlBug       \* "none" | "silent" | "forget"
 
 VARIABLES task,      \* [Tasks -> "idle" | "waitsem" | "waitrsp" | "ready"]
@@ -83,6 +89,20 @@ Send(t) ==
     /\ h2c' = Append(h2c, op[t])
     /\ task' = [task EXCEPT ![t] = "waitrsp"]
     /\ UNCHANGED <<op, got, calls, c2h, cur, ctrlProc, weak, owed>>
+
+\* Host._send_command when handing the packet over raises (serialisation of a value that does not fit its field,
+\* or the sink's on_packet): nothing crosses to the controller, the caller gets the exception, and the command
+\* slot (semaphore, pending command) is as free afterwards as it was before.  The property does not say at which
+\* point of its wait the caller learns this (today: once it holds the semaphore), hence no guard on sem.
+SendFail(t) ==
+    /\ task[t] = "waitsem"
+    /\ HostBug = "keep_slot" => sem = 1 /\ pending = NoCmd
+    /\ sem' = IF HostBug = "keep_slot" THEN 0 ELSE sem                                  \* negative control: the slot is
+    /\ pending' = IF HostBug = "keep_slot" THEN [t |-> t, op |-> op[t]] ELSE pending     \* never given back
+    /\ task' = [task EXCEPT ![t] = "idle"]
+    /\ calls' = [calls EXCEPT ![t] = @ + 1]
+    /\ op' = [op EXCEPT ![t] = NoOp]
+    /\ UNCHANGED <<got, h2c, c2h, cur, ctrlProc, weak, owed>>
 
 \* Host.on_packet for the head of the controller->host FIFO
 HostRecv ==
@@ -161,18 +181,23 @@ CtrlDrop ==
 -----------------------------------------------------------------------------
 \* ---- the bounded model
 KeyName     == <<"p1", "p2", "p3", "p4", "p5", "p6", "p7", "p8", "p9">>        \* model opcodes are 1..9
-KeysOf(o)   == IF o \in ProcOps THEN {KeyName[o]} ELSE {}
+KeysOf(o)   == IF o = AliasOp /\ AliasOp # NoOp THEN {KeyName[AliasTarget]}
+               ELSE IF o \in ProcOps THEN {KeyName[o]} ELSE {}
 CancelOf(o) == IF o = CancelOp /\ CancelOp # NoOp THEN KeyName[CancelTarget] ELSE NoKey
 AllKeys     == {KeyName[o] : o \in ProcOps}
 Credits     == IF CreditGames THEN 0..1 ELSE {1}
 
 ConcludeOne(p) == p \in ctrlProc /\ CtrlConclude({p})
+FailOne(t)     == op[t] \in FailOps /\ SendFail(t)
+
+WeakOp(o)   == o \in WeakOps \/ (o = AliasOp /\ AliasOp # NoOp /\ AliasTarget \in WeakOps)
 
 CtrlAnswer == \E k \in {"cc", "cs"}, st \in {"ok", "err"}, n \in Credits :
-                 CtrlReply(k, st, n, KeysOf(cur), CancelOf(cur), cur \in WeakOps)
+                 CtrlReply(k, st, n, KeysOf(cur), CancelOf(cur), WeakOp(cur))
 
 Next == \/ \E t \in Tasks, o \in Ops : Call(t, o)
         \/ \E t \in Tasks : Send(t) \/ Return(t)
+        \/ \E t \in Tasks : FailOne(t)
         \/ HostRecv
         \/ CtrlRecv \/ CtrlAnswer \/ CtrlCredit \/ CtrlDrop
         \/ \E p \in AllKeys : ConcludeOne(p)
@@ -205,6 +230,13 @@ Inv_OwnOpcode == \A t \in Tasks : task[t] = "ready" => got[t].ty = "rep" /\ got[
 Inv_Credit == owed => (h2c = <<>> /\ cur = NoOp)
 \* a waiting caller is the one recorded as pending
 Inv_Pending == \A t \in Tasks : task[t] \in {"waitrsp", "ready"} => pending = [t |-> t, op |-> op[t]]
+\* the command slot is held only on behalf of a command that did cross to the controller (or of a withheld
+\* credit): with nothing in flight, nobody waiting for a reply and no credit owed, the slot is free
+Inv_SlotFree ==
+    (/\ h2c = <<>> /\ cur = NoOp /\ ~owed
+     /\ \A i \in DOMAIN c2h : c2h[i].ty = "evt"
+     /\ \A t \in Tasks : task[t] \notin {"waitrsp", "ready"})
+    => (sem = 1 /\ pending = NoCmd)
 
 \* no caller waits for ever, later commands are not blocked
 Live_Answered  == \A t \in Tasks : (task[t] = "waitsem") ~> (task[t] = "idle")
